@@ -21,7 +21,8 @@ import types
 from .. import core, tlaval
 
 MODNAMES = {'mod': 'vf_fake_mod', 'emod': 'vf_fake_emod', 'dmod': 'vf_fake_dmod'}
-DEVICES = [('a', True, False), ('b', True, True), ('c', False, True), ('d', True, True), ('b2', False, True)]
+DEVICES = [('a', True, False), ('b', True, False), ('c', True, False), ('x', True, False),
+           ('c', False, True), ('a', False, True), ('y', False, True), ('b', False, True), ('d', True, True)]
 
 
 class Rec:
@@ -224,7 +225,7 @@ def check_set_backend():
             return 'after set_backend the top-level functions called %r' % (REC.calls,)
         if any(c[3].get('api') != 'NA' for c in REC.calls):
             return 'api suffix did not reach %r' % (REC.calls,)
-        if names != ['b', 'd']:
+        if names != ['a', 'b', 'c', 'd']:
             return 'get_ioport_names() = %r' % (names,)
         if mido.backend.name != MODNAMES['mod'] or mido.open_input.__self__ is not mido.backend:
             return 'mido.backend / bound methods not rebound'
